@@ -70,7 +70,7 @@ class CombCircuit:
         with warnings.catch_warnings():
             warnings.simplefilter("ignore")
             self.drv = Driver(self.top, list(zip(self.in_names, self.in_sigs)), list(zip(self.out_names, self.out_sigs)))
-        if self.drv.reg_slots or self.drv.mem_slots:
+        if self.drv.clocked or self.drv.mem_slots:   # undriven signals are constants, not state
             raise HarnessError("combinational spec has state: " + str(self.drv.state_names()))
         self.ref = spec["ref"]
         self.constraint = spec.get("constraint")
